@@ -11,6 +11,7 @@ import (
 	"encoding/hex"
 	"encoding/json"
 	"fmt"
+	"hash"
 	"os"
 	"reflect"
 	"strconv"
@@ -193,6 +194,29 @@ func UF(name string, outBytes int, in ...[]byte) []byte {
 	}
 	return out
 }
+
+// UFHash is an idealised hash.Hash: Sum is the uninterpreted function name over the bytes written.
+// The engine substitutes it for crypto/sha256.New(); native replays get it through the
+// replay_rewrite of sha256.New() -> verif.NewSHA256() (so that both sides see the same function).
+type UFHash struct {
+	name string
+	size int
+	buf  []byte
+}
+
+func NewUFHash(name string, size int) *UFHash { return &UFHash{name: name, size: size} }
+
+// NewSHA256 stands in for crypto/sha256.New.
+func NewSHA256() hash.Hash { return &UFHash{name: "sha256", size: 32} }
+
+func (h *UFHash) Write(p []byte) (int, error) {
+	h.buf = append(h.buf, p...)
+	return len(p), nil
+}
+func (h *UFHash) Sum(b []byte) []byte { return append(b, UF(h.name, h.size, h.buf)...) }
+func (h *UFHash) Reset()              { h.buf = nil }
+func (h *UFHash) Size() int           { return h.size }
+func (h *UFHash) BlockSize() int      { return 64 }
 
 // AssumeInjective declares the UF family collision-free on the first truncBytes bytes of its
 // output (0 = whole output) for all applications occurring on the path.
